@@ -104,14 +104,14 @@ macro_rules! check_pair {
     ($x:expr, $y:expr, $want:expr, $what:literal) => {{
         let want: Ordering = $want;
         let eq = *$x == *$y;
-        assert!(eq == (want == Ordering::Equal), concat!("C07: ", $what, " equality differs from equality of the canonical forms"));
-        assert!((*$y == *$x) == eq, concat!("C07: ", $what, " equality is not symmetric"));
+        assert!(eq == (want == Ordering::Equal), "C07: equality differs from equality of the canonical forms");
+        assert!((*$y == *$x) == eq, "C07: equality is not symmetric");
         let c = $x.cmp($y);
-        assert!(c == want, concat!("C08: ", $what, " ordering differs from the order of the canonical forms"));
-        assert!($y.cmp($x) == want.reverse(), concat!("C08: ", $what, " ordering is not antisymmetric"));
-        assert!($x.partial_cmp($y) == Some(c), concat!("C08: ", $what, " partial_cmp != Some(cmp)"));
+        assert!(c == want, "C08: ordering differs from the order of the canonical forms");
+        assert!($y.cmp($x) == want.reverse(), "C08: ordering is not antisymmetric");
+        assert!($x.partial_cmp($y) == Some(c), "C08: partial_cmp != Some(cmp)");
         if eq {
-            assert!(Stream::of($x).same_as($y), concat!("C08: equal ", $what, " values feed different data to the hasher"));
+            assert!(Stream::of($x).same_as($y), "C08: equal values feed different data to the hasher");
         }
     }};
 }
@@ -128,15 +128,15 @@ macro_rules! check_mode {
         let want: Ordering = $want;
         if $mode == EQ {
             let eq = *$x == *$y;
-            assert!(eq == (want == Ordering::Equal), concat!("C07: ", $what, " equality differs from equality of the canonical forms"));
-            assert!((*$y == *$x) == eq, concat!("C07: ", $what, " equality is not symmetric"));
+            assert!(eq == (want == Ordering::Equal), "C07: equality differs from equality of the canonical forms");
+            assert!((*$y == *$x) == eq, "C07: equality is not symmetric");
         } else if $mode == ORD {
             let c = $x.cmp($y);
-            assert!(c == want, concat!("C08: ", $what, " ordering differs from the order of the canonical forms"));
-            assert!($x.partial_cmp($y) == Some(c), concat!("C08: ", $what, " partial_cmp != Some(cmp)"));
+            assert!(c == want, "C08: ordering differs from the order of the canonical forms");
+            assert!($x.partial_cmp($y) == Some(c), "C08: partial_cmp != Some(cmp)");
         } else {
             if want == Ordering::Equal {
-                assert!(Stream::of($x).same_as($y), concat!("C08: equal ", $what, " values feed different data to the hasher"));
+                assert!(Stream::of($x).same_as($y), "C08: equal values feed different data to the hasher");
             }
         }
     }};
